@@ -38,7 +38,7 @@ func resolveExternal(fn *ssa.Function) externalFn {
 	if f, ok := symExternals[name]; ok {
 		return f
 	}
-	if f, ok := externals[name]; ok {
+	if f, ok := externals[name]; ok && !removedExternals[name] {
 		return f
 	}
 	return nil
@@ -612,13 +612,16 @@ func init() {
 	for k, v := range symExternals {
 		if v == nil {
 			delete(symExternals, k)
-			delete(externals, k)
+			removedExternals[k] = true
 		}
 	}
 	for _, k := range []string{"unicode/utf8.DecodeRuneInString", "strings.Replace", "strings.Count", "strings.ToLower", "strings.EqualFold", "math.Min", "math.Copysign", "math.Ldexp", "strconv.Itoa", "strconv.Atoi", "sort.Ints", "sort.Strings", "sort.Float64s", "time.Sleep", "math.Exp", "math.Log"} {
-		delete(externals, k)
+		removedExternals[k] = true
 	}
 }
+
+// removedExternals: entries of the stock externals table that symgo does not use (the real SSA body runs instead).
+var removedExternals = map[string]bool{}
 
 type nativeObj struct{ o interface{} }
 
@@ -750,8 +753,13 @@ func formatArg(fr *frame, verb string, a value) value {
 	case sstring:
 		return v
 	case *sym:
-		// small symbolic integers: enumerate
-		return fmt.Sprintf("%"+verb[1:], concretize(v))
+		// small symbolic integers: enumerate (exact); wider ones are rendered opaquely - formatted text of a
+		// symbolic number is outside every claim (number text, DESIGN §7) and only occurs in error messages
+		if kindWidth(v.k) <= 8 && !kindIsFloat(v.k) && !X.IntMode {
+			return fmt.Sprintf("%"+verb[1:], concretize(v))
+		}
+		X.stub("fmt of a symbolic number rendered as <sym>")
+		return "<sym>"
 	case bool, int, int8, int16, int32, int64, uint, uint8, uint16, uint32, uint64, uintptr, float32, float64, string:
 		return fmt.Sprintf(verb, v)
 	case *value:
